@@ -66,6 +66,36 @@ pub fn run(scenario: &str, input: &Value) -> Option<(bool, Value)> {
             });
             Some((got == expect, json!({"got": got})))
         }
+        // C11/C12: laws of the term order on a pair / triple, and the order Erlang prescribes where `erlang` is given
+        "cmp_law" => {
+            let a = term(&input["a"]);
+            let b = term(&input["b"]);
+            let ab = a.cmp(&b);
+            let ba = b.cmp(&a);
+            let mut ok = ab == ba.reverse();
+            let mut obs = json!({"a_cmp_b": ord_s(ab), "b_cmp_a": ord_s(ba)});
+            if let Some(e) = input.get("erlang").and_then(|v| v.as_str()) {
+                ok &= ord_s(ab) == e;
+            }
+            if a == b {
+                ok &= ab == std::cmp::Ordering::Equal && hash_of(&a) == hash_of(&b);
+                obs["eq"] = json!(true);
+                obs["hash_equal"] = json!(hash_of(&a) == hash_of(&b));
+            }
+            if let Some(cv) = input.get("c") {
+                let c = term(cv);
+                let bc = b.cmp(&c);
+                let ac = a.cmp(&c);
+                use std::cmp::Ordering::*;
+                // a<=b && b<=c ==> a<=c
+                if ab != Greater && bc != Greater { ok &= ac != Greater; }
+                // a==b (order) ==> a and b compare alike against c
+                if ab == Equal { ok &= ac == bc; }
+                obs["b_cmp_c"] = json!(ord_s(bc));
+                obs["a_cmp_c"] = json!(ord_s(ac));
+            }
+            Some((ok, obs))
+        }
         // C09: fragments numbered N..1 (header = N, carrying the start of the data) reassemble to the original bytes
         "fragments" => {
             use edp_client::fragmentation::FragmentAssembler;
@@ -138,6 +168,31 @@ pub fn run(scenario: &str, input: &Value) -> Option<(bool, Value)> {
         _ => None,
     }
 }
+
+/// terms written as JSON: {"int":n} {"float":x} {"big":{"neg":b,"digits":[..]}} {"atom":"a"} {"bin":[..]} {"bitbin":[[..],bits]}
+/// {"list":[..]} {"improper":[[..],tail]} {"tuple":[..]} {"map":[[k,v],..]} "nil"
+pub fn term(v: &Value) -> erltf::OwnedTerm {
+    use erltf::OwnedTerm as T;
+    if v.as_str() == Some("nil") { return T::Nil; }
+    let o = v.as_object().expect("term object");
+    let (k, x) = o.iter().next().unwrap();
+    let bytes = |x: &Value| -> Vec<u8> { x.as_array().unwrap().iter().map(|b| b.as_u64().unwrap() as u8).collect() };
+    match k.as_str() {
+        "int" => T::Integer(i(x)),
+        "float" => T::Float(x.as_f64().or_else(|| x.as_str().and_then(|s| s.parse().ok())).unwrap()),
+        "big" => T::BigInt(erltf::types::BigInt::new(x["neg"].as_bool().unwrap(), bytes(&x["digits"]))),
+        "atom" => T::Atom(erltf::types::Atom::new(x.as_str().unwrap())),
+        "bin" => T::Binary(bytes(x)),
+        "bitbin" => T::BitBinary { bytes: bytes(&x[0]), bits: x[1].as_u64().unwrap() as u8 },
+        "list" => T::List(x.as_array().unwrap().iter().map(term).collect()),
+        "improper" => T::ImproperList { elements: x[0].as_array().unwrap().iter().map(term).collect(), tail: Box::new(term(&x[1])) },
+        "tuple" => T::Tuple(x.as_array().unwrap().iter().map(term).collect()),
+        "map" => T::Map(x.as_array().unwrap().iter().map(|kv| (term(&kv[0]), term(&kv[1]))).collect()),
+        _ => panic!("unknown term kind {k}"),
+    }
+}
+fn ord_s(o: std::cmp::Ordering) -> &'static str { match o { std::cmp::Ordering::Less => "Less", std::cmp::Ordering::Equal => "Equal", std::cmp::Ordering::Greater => "Greater" } }
+fn hash_of(t: &erltf::OwnedTerm) -> u64 { use std::hash::{Hash, Hasher}; let mut h = std::collections::hash_map::DefaultHasher::new(); t.hash(&mut h); h.finish() }
 
 /// input bytes: either literal `bytes`, or a generator
 fn gen_bytes(input: &Value) -> Vec<u8> {
